@@ -33,7 +33,7 @@ def declared(info: SpecInfo, n):
 
 class Normalisation(Facet):
     name = "normalisation_and_stability"
-    flags = Flags(weights=True, zero_weights=True, dependent=False, user_mh=False, max_abstract=4, max_concrete=7)
+    flags = Flags(weights=True, zero_weights=True, dependent=False, user_mh=False, max_abstract=4, max_concrete=7, concrete_start=True)
 
     def budget(self, tier):
         return (150, 4) if tier == "quick" else (2000, 16)
